@@ -12,10 +12,23 @@ import (
 const band = 1e-9
 
 // resolution: a point set is only used when every triple and every quadruple is
-// further from collinear / co-circular than this fraction of a conservative
-// bound of the predicate's scale, i.e. far above what double-precision
-// evaluation of the predicates (~1e-15) can confuse.
+// further from collinear / co-circular than this fraction of the predicate's own
+// scale (the permanent of the determinant, maximised over the choice of origin),
+// i.e. far above what a double-precision evaluation of the predicates (~1e-15 of
+// the permanent) can confuse. A cheap conservative bound of the permanent is
+// tried first; only candidates that fail it are evaluated precisely.
 const resolution = 1e-13
+
+// orientPerm is |detl|+|detr| of the orientation determinant with o as origin.
+func orientPerm(o, a, b pt) float64 {
+	return math.Abs((a.x-o.x)*(b.y-o.y)) + math.Abs((a.y-o.y)*(b.x-o.x))
+}
+
+// incirclePerm is the permanent of the in-circle determinant of a,b,c with o as origin.
+func incirclePerm(o, a, b, c pt) float64 {
+	ax, ay, bx, by, cx, cy := a.x-o.x, a.y-o.y, b.x-o.x, b.y-o.y, c.x-o.x, c.y-o.y
+	return (math.Abs(bx*cy)+math.Abs(cx*by))*(ax*ax+ay*ay) + (math.Abs(cx*ay)+math.Abs(ax*cy))*(bx*bx+by*by) + (math.Abs(ax*by)+math.Abs(bx*ay))*(cx*cx+cy*cy)
+}
 
 // certify reports whether P is in general position at float resolution.
 func certify(P []pt) (bool, string) {
@@ -36,7 +49,10 @@ func certify(P []pt) (bool, string) {
 				minx, maxx := math.Min(0, math.Min(bx, cx)), math.Max(0, math.Max(bx, cx))
 				miny, maxy := math.Min(0, math.Min(by, cy)), math.Max(0, math.Max(by, cy))
 				if math.Abs(m3) <= resolution*2*(maxx-minx)*(maxy-miny) {
-					return false, fmt.Sprintf("near-collinear triple %d,%d,%d", i, j, k)
+					pm := math.Max(orientPerm(P[i], P[j], P[k]), math.Max(orientPerm(P[j], P[k], P[i]), orientPerm(P[k], P[i], P[j])))
+					if math.Abs(m3) <= resolution*pm {
+						return false, fmt.Sprintf("near-collinear triple %d,%d,%d", i, j, k)
+					}
 				}
 				m1 := by*cl - bl*cy
 				m2 := bx*cl - bl*cx
@@ -48,7 +64,13 @@ func certify(P []pt) (bool, string) {
 					d := math.Max(ex, ey)
 					d2 := d * d
 					if math.Abs(det) <= resolution*12*d2*d2 {
-						return false, fmt.Sprintf("near-co-circular quadruple %d,%d,%d,%d", i, j, k, l)
+						A, B, C, D := P[i], P[j], P[k], P[l]
+						pm := math.Max(math.Max(incirclePerm(A, B, C, D), incirclePerm(B, A, C, D)), math.Max(incirclePerm(C, A, B, D), incirclePerm(D, A, B, C)))
+						// the determinant itself, evaluated with the origin that gives the smallest permanent error, is not
+						// needed: det (origin A) carries an error of ~1e-15*perm(A) <= 1e-15*pm, two orders below the threshold
+						if math.Abs(det) <= resolution*pm {
+							return false, fmt.Sprintf("near-co-circular quadruple %d,%d,%d,%d", i, j, k, l)
+						}
 					}
 				}
 			}
